@@ -473,6 +473,16 @@ def checkpoint_chunk(vm):
     return 'ok-stored' if written else 'ok-refused'
 
 
+class OverlongHashTok:
+    """The hash of a reply that carries more than the 1000 headers of the chunk: no checkpoint equals it."""
+
+    def decode(self):
+        return self
+
+    def __symeq__(self, other, vm):
+        return other is self
+
+
 class ChunkHashTok:
     def decode(self):
         return self
@@ -615,7 +625,7 @@ def sym_setup_connect(vm, job):
         atoms = vm.norm_atoms(list(a[0].a)) if isinstance(a[0], SBytes) else None
         if atoms and len(atoms) == 2 and isinstance(atoms[0], Run) and atoms[0].rid == 'chunk' and isinstance(atoms[1], Run) \
                 and atoms[1].rid == 'extra':
-            return 'hash-of-an-over-long-reply'                  # ideal hash: equals no checkpoint
+            return OverlongHashTok()                              # ideal hash: equals no checkpoint
         space, i = ident(a[0])
         return ChunkHashTok() if space == 'chunk' else HTok(space, i)
 
